@@ -89,12 +89,34 @@ def plan(tier, seed):
         for level in ("1.5", "1.1"):
             for L, rpc in ((3, 1), (3, 2), (5, 2), (5, 3)):
                 cases.append({"spec": spec_for(level, L), "devs": [], "rpc": rpc, "label": f"{level} baseline L={L} rpc={rpc}"})
+    # the same statement must hold when the image groups come out of an index cache: scans of one
+    # polarisation (file names that differ only behind the last '.'), several polarisations, both levels
+    multi = {
+        "1.1": [["HH", "F1", 3, 2], ["HH", "F2", 4, 3], ["HV", "F1", 2, 2], ["HV", "F2", 3, 4]],
+        "1.5": [["HH", None, 3, 2], ["HV", None, 4, 3], ["VH", None, 2, 2], ["VV", None, 3, 4]],
+    }
+    for level, images in multi.items():
+        for pre, kw, what in (
+            ([], {}, "uncached"),
+            ([], {"create_cache": True}, "open that writes the cache"),
+            ([{"create_cache": True}], {}, "cached open"),
+            ([{"use_cache": False, "create_cache": True}], {}, "cached open after use_cache=False,create_cache=True"),
+            ([{"create_cache": True, "records_per_chunk": 2}], {"records_per_chunk": 3}, "cached open, other rpc"),
+        ):
+            cases.append({"spec": {"level": level, "images": images}, "devs": [], "pre": pre, "kw": kw, "label": f"{level} four images, {what}"})
     return cases
 
 
 def execute(case):
     spec = treecheck.spec_from_case(case)
-    out = treecheck.check_spec(spec, only=["/imagery"], open_kw={"records_per_chunk": case["rpc"]} if case.get("rpc") else None)
+    kw = dict(case.get("kw") or {})
+    if case.get("rpc"):
+        kw["records_per_chunk"] = case["rpc"]
+    if "pre" in case:
+        from mc import env
+
+        env.wipe_cache()
+    out = treecheck.check_spec(spec, only=["/imagery"], open_kw=kw or None, pre=case.get("pre", ()))
     fails = out["failures"]
     for f in fails:
         f["detail"] = f"{case['label']}: {f['detail']}"
@@ -107,7 +129,7 @@ def run(res, tier, seed):
         "both record types; baselines L=1..3; every prefix field x {0,1,mid,max,high bit | every enum code | flag 0,1,2} on one"
         " line (quick) / each line (thorough), per-file constants on all lines; (year,day,ms) over 3 years x days"
         " {1,59,60,61,365,366} x ms {0,1,86399999}; us {0,1,86399999999}; 5 optional header fields x {blank,0,value,full width};"
-        " neighbour pairs full width (thorough). Every case is a distinct product compared on all /imagery leaves."
+        " neighbour pairs full width (thorough); four-image products (two scans x two polarisations, four polarisations) uncached, while writing the index cache and through it. Every case is a distinct product compared on all /imagery leaves."
     )
     res.assumptions = ["per-file constants are constant over the lines of a file (the property calls them constants)", "a blank interleaving id may surface as absent or as '' (C03 and C20 word it differently)"]
     unv = set()
